@@ -572,6 +572,15 @@ impl<'a> BInterp<'a> {
         let chunk = self.model.first_fragment().min(rem);
         let code = code % 21;
         let code = if digest_mode() && matches!(code, 2 | 12 | 13 | 14) { 0 } else { code };
+        // chunk() empty although bytes remain (already recorded by observe() as a C09 observation): everything built on the
+        // provided copy loop `while !dst.is_empty() { chunk(); advance(..) }` would spin for ever, so only operations that do
+        // not loop are still executed - they show what the same state does to the one-byte typed reads (C10)
+        if rem > 0 && self.viols.iter().any(|v| v.soft) {
+            let one_byte_read = matches!(code, 6 | 7) && GETTERS[(a as usize) % GETTERS.len()].size == 1;
+            if !(one_byte_read || matches!(code, 0 | 1 | 8 | 9 | 10 | 16 | 17)) {
+                return;
+            }
+        }
         self.st.ops[code as usize] += 1;
         self.mix(code as u64);
         match code {
